@@ -34,7 +34,7 @@ CLAIMS["C05"] = ("symbolic column-term evaluation; slot checks of the bit-sweep 
     "Decides the bit-sweep template of the kernel-type table (per type the merged intervals of that type's device rows, markers +v/-v with distinct powers of two, time-sorted cumsum, next_time = shift(-1), rows kept iff running > 0, labels by u & bit tests for u > 0, sum of segment durations per label, percentage = sum/total*100) and, for the per-kernel table on every path with and without allow-list, the provenance rule: sum/max/min/mean/std of each reported row are aggregated directly from the kernels' dur grouped by the final label (own name or 'others'), the relabelling is the complete table others iff not kept and (position >= num_kernels or beyond the duration quantile) on the sum-descending frame with a fresh index, under the guard rows > num_kernels; type list and argument bindings. Structure, not numbers.",
     "3/C05")
 
-CLAIMS["C14"] = ("symbolic column-term evaluation; event-log rules over the sort/concat/join/filter operations (tie-order accept set, no lossy row removal after the sweep); inverse-arithmetic agreement (- min_ts / + min_ts)",
+CLAIMS["C14"] = ("symbolic column-term evaluation; event-log rules over the sort/concat/join/filter operations (tie-order accept set, no lossy row removal after the sweep); inverse-arithmetic agreement (- min_ts / + min_ts); whole-function evaluation of the counters wrapper and of the per-rank wrappers on three abstract ranks",
     "Decides the +1/-1 sweep template of the queue-length series (launch-name table & index_correlation > 0; activities = device rows whose correlation is among the launches'; launch rows take stream/pid/tid from their activity by a left join on correlation; sort by ts with launches before activities at equal timestamps - secondary key on the marker descending or a stable sort over the launches-first concat; per-stream cumsum; every row output or de-duplicated keeping the last row of an instant), the bandwidth template (dur 0 -> 1 before ts+dur, negated bandwidth at the end row, ts-sorted per-name cumsum), and that counter events add back exactly the attribute _align_all_ranks subtracted, with phase C and args {counter: value}; wrapper column names agree. Structure, not values.",
     "3/C14")
 CLAIMS["C15"] = ("symbolic column-term evaluation over two symbolic ranks; name-table extraction; truth tables of the side predicates; call-site binding",
@@ -55,7 +55,7 @@ CLAIMS["C01"] = ("symbolic evaluation of the JSON back end on all 96 paths (row-
 CLAIMS["C17"] = ("symbolic evaluation of the summary/comparison pipelines (multi-index flattening and column-wise concat modelled); finite decision table of the five class masks over (control, test) sign patterns; call-argument wiring",
     "Decides: event selection = iteration isin(requested) & device predicate (CPU stream==-1, GPU stream!=-1, ALL none) on the requested rank's frame; summary = count and sum of dur per (cat,name) renamed counts/total_duration and decoded through the table; comparison regroups by the chosen name column with sum, outer column-wise concat of control and test, fillna 0, differences test - control, each trace selected with its own rank/iteration arguments; the five masks evaluated on ten consistent count patterns are pairwise disjoint, exhaustive, and map identical inputs to 'unchanged' only.",
     "3/C17")
-CLAIMS["C18"] = ("effect analysis over the evaluator's event log (purity, statelessness), shape analysis of returned frames on every path (selection-only), predicate terms / decision tables per filter, row-locality classification, AST rule for the dtype idiom",
+CLAIMS["C18"] = ("effect analysis over the evaluator's event log (purity, statelessness), shape analysis of returned frames on every path (selection-only), predicate terms / decision tables per filter, row-locality classification, evaluation of CompositeFilter on opaque members, AST rule for the dtype idiom",
     "Decides for all 13 filter classes, with and without a symbol table, on every path: no mutation of the input frame or alias; no attribute store on the filter inside __call__ (no call-to-call state); every returned frame is the input, a mask selection of it built from its own rows, or pd.DataFrame() on a no-match path - never re-ordered, re-indexed, or extended; each filter's selection predicate equals the documented one (membership, full containment in the time range, anchored str.match, ids of matching symbols of the given table, device/host side as 18-case tables, memcpy name&cat); only the iteration-index filters depend on the whole frame and they sort the distinct iterations; CompositeFilter threads the frame through its members in order; the string-column test accepts every pandas string dtype.",
     "3/C18")
 
@@ -77,10 +77,10 @@ CLAIMS["C11"] = ("whole-program effect/alias analysis for the two symbol-table c
     "Decides the necessary structural conditions: only __init__/add_symbols/clone/create_from_symbol_id_map write sym_table or sym_index anywhere in hta, also through any alias handed out by the getters; add_symbols is append-only under the membership guard with the id taken before the append and both stores in the guarded block; clone copies, create_from_symbol_id_map derives the index from the table it built; re-encoding is global_map[local_table[old]] with the same rank's local table and the global map read after all additions, with no cast back to the narrow local dtype; results are collected only with pool.map and zipped with the rank list the inputs were built from, ranks sorted; no ordering/arithmetic use of an encoded name/cat column outside two justified sites where the column is decoded. Multiprocessing's delivery guarantees and hash-seed effects inside pandas are not decided.",
     "3/C11")
 
-CLAIMS["C13"] = ("symbolic evaluation of the three tree recurrences with the recursive call abstracted; scatter-term check of the defaults; AST rules for the backward attachment and the link direction; end = ts + dur typestate",
+CLAIMS["C13"] = ("symbolic evaluation of the three tree recurrences with the recursive call abstracted; scatter-term check of the defaults; path-sensitive evaluation of the backward-parent search into a decision table (annotation present x ProfilerStep present -> parents); AST rule for the link direction; end = ts + dur typestate",
     "Decides: depth = parent's + 1 with roots entered at -2 and children visited with the node's new depth; height = 0 for device nodes, 1 for childless host nodes, else max over children of child+1; kernel info = (1, dur, end-ts, ts, end) at a device leaf and (sum, sum, max end - min start, min, max) over ALL children at a host node, written back to the like-meaning stack columns; the eight defaults and the (0,0,-1,-1) normalisation of rows with num_kernels <= 0; device activity attached beneath its launch call as a GPU node; backward attachment only with exactly one main and one bwd stack, candidates '## backward ##' then 'ProfilerStep#' chosen by the events present on this rank's main thread, re-parenting the root's children with ts >= parent.ts and end <= parent.end; end coherent after the time shift. The tree itself is C03.",
     "3/C13")
-CLAIMS["C16"] = ("symbolic evaluation of root selection / pattern accumulation (event log of dict stores); interprocedural abstract evaluation of the descendants query on a two-node abstract tree with the call site's actual arguments; dependency clause on the call-stack tie rules (decision table)",
+CLAIMS["C16"] = ("symbolic evaluation of root selection / pattern accumulation (event log of dict stores); interprocedural abstract evaluation of the descendants query on a two-node abstract tree with the call site's actual arguments; dependency clause on the call-stack tie rules (decision table); evaluation of the result-table builder (per-pattern column terms, sort key)",
     "Decides: candidates = name ids of symbols containing operator_name; roots = candidates at the minimum depth over ALL candidates with num_kernels >= min_pattern_len; per root the stack of its own id without ancestors, device rows by start time, pattern = (root name,) + their names, count += 1, durations += (root kernel_dur_sum, root dur) with positional unpacking agreeing with the projected columns; result ordered by count descending; the device child of a host root is retained by get_stack_of_node -> get_descendants -> get_paths_to_leaves with the arguments actually passed; and the endpoint tie rules that decide which operator owns an event at a shared instant. Correctness of the whole tree is C03/C13.",
     "3/C16")
 CLAIMS["C20"] = ("effect/alias analysis of the raw trace dictionaries with a mutation whitelist; freshness rule for the reader; AST pairing rules of the overlay; sibling cross-check of the compression convention; regex/separator agreement",
